@@ -28,7 +28,7 @@ SEEDS = {
  'C16-1': ('/tmp/wt_C16', 1, 'C16', 'first transaction is a loss Sell that settles on its trade date and leaves shares', {'C02': ['window-of-settlement-date']}, 'seeded against C16, reported by the C02 check (window computed around a trade date)'),
  'C16-2': ('/tmp/wt_C16', 2, 'C16', 'a security name in the CSV that is not all upper case', {'C16': ['symbol-key-unmodified']}, 'caught after rule R16c (the map key is the symbol as given) was added'),
  'C18-1': ('/tmp/wt_C18', 1, 'C18', 'a USD dividend row with a negative net amount (reversal)', {'C18': ['cash-amount-keeps-its-sign']}, 'caught after rule R18f (no abs / neg / max on a cash amount handed to the FX tracker) was added in the third seeding round'),
- 'C18-2': ('/tmp/wt_C18', 2, 'C18', 'an --account pattern anchored with ^ on the documented account string', {}, 'option filtering is outside the claimed structural clause (cells found under named headers)'),
+ 'C18-2': ('/tmp/wt_C18', 2, 'C18', 'an --account pattern anchored with ^ on the documented account string', {'C18': ['account-pattern-matches-type-and-number']}, 'caught after rule R18g (the matched account text reads the account type and number only) was added at the end of the third round'),
  'C20-1': ('/tmp/wt_C20', 1, 'C20', 'a statement whose table is on a page numbered below an already loaded page (two cooperating sites)', {'C20': ['popped-page-is-yielded']}, 'caught after rules R20c/R20d (popped page is yielded; requested pages are loaded unfiltered) were added'),
  'C20-2': ('/tmp/wt_C20', 2, 'C20', 'two or more holdings where a later one rounds to 100.0% with a multi-line description', {'C20': ['unfinishable-total-like-line-joins-the-security']}, 'caught after rule R20g was added in the third seeding round (the same change came back as C20-6)'),
 
